@@ -57,7 +57,7 @@ def run(fx, R, tier):
         rec = fx.records.get(cq)
         if rec:
             es = next((f_ for f_ in rec['fields'] if f_['name'] == 'eigenSolver_'), None)
-            R.check(es is not None and es['t']['s'].startswith('Eigen::SelfAdjointEigenSolver<'), 'N2', cname + ':solver', 'eigen solver member is %s' % (es['t']['s'] if es else None),
+            R.form(es is not None and es['t']['s'].startswith('Eigen::SelfAdjointEigenSolver<'), 'N2', cname + ':solver', 'eigen solver member is %s' % (es['t']['s'] if es else None),
                     'SelfAdjointEigenSolver (ascending eigenvalues)', None, 'E-SIB')
     # reliability: same formula for all 2-D types, and for all 3-D types
     for dim, frm in ((2, ('abs', ('/', ('()', 'this.eigenValues_', 1), ('()', 'this.eigenValues_', 0)))),
@@ -140,7 +140,7 @@ def check_compute(fx, R, cq, cname, f):
     bound = cond[2] if isinstance(cond, tuple) and len(cond) == 3 else None
     bdef = deep_unwrap(sx(vs[bound]['init'])) if bound in vs and vs[bound].get('init') is not None else bound
     full = nvar in vs and const_value(vs[nvar].get('init')) == 0 and cond[0] == '<' and bdef == ('.size', 'points') and deep_unwrap(sx(L['inc'])) in (('u++', nvar),)
-    R.check(bool(full), 'N1', inst + ':loop', 'the loop does not run over every point: %s' % (cond,), 'every point of the cloud', loc, 'E-STATE')
+    R.form(bool(full), 'N1', inst + ':loop', 'the loop does not run over every point: %s' % (cond,), 'every point of the cloud', loc, 'E-STATE')
     body = [deep_unwrap(sx(x['e'])) for x in (L['b']['s'] if L['b']['k'] == 'Compound' else [L['b']]) if x['k'] == 'Expr']
     nested = any(x['k'] in ('If', 'For', 'While') for x in (L['b']['s'] if L['b']['k'] == 'Compound' else [L['b']]))
     n = nvar
@@ -159,11 +159,11 @@ def check_compute(fx, R, cq, cname, f):
     else:
         R.holds('N1', inst + ':flip', 'normal write is followed by the flip in the same iteration', loc, 'E-STATE')
     # plane estimation first, on point n
-    R.check(bool(body) and body[0] == plane, 'N3', inst + ':estimate', 'iteration does not start with planeEstimation_(points, tree, n): %s' % (body[:1],), 'plane estimated for point n first', loc, 'E-STATE')
+    R.form(bool(body) and body[0] == plane, 'N3', inst + ':estimate', 'iteration does not start with planeEstimation_(points, tree, n): %s' % (body[:1],), 'plane estimated for point n first', loc, 'E-STATE')
     # eigenvector copy: column 0
     cp = [s for s in body if isinstance(s, tuple) and s[0] == 'std::copy']
     if len(cp) == 1:
-        R.check(cp[0] == copy, 'N2', inst + ':eigenvector', 'normal is copied by %s; the eigenvector of the smallest eigenvalue is the first CARTESIAN_DIM entries of eigenVectors_.data()' % (cp[0],),
+        R.form(cp[0] == copy, 'N2', inst + ':eigenvector', 'normal is copied by %s; the eigenvector of the smallest eigenvalue is the first CARTESIAN_DIM entries of eigenVectors_.data()' % (cp[0],),
                 'copies column 0 of the eigenvectors', loc, 'E-SIB')
     else:
         wr = [s_ for s_ in body if writes_normal(s_, n)]
@@ -191,7 +191,7 @@ def check_compute(fx, R, cq, cname, f):
             R.undecided('N2', inst + ':curvature', 'curvature idiom not recognised: %s' % (cur,))
     if 'normalsReliability' in names:
         rl = [s for s in body if isinstance(s, tuple) and s[0] == '=' and s[1] == ('[]', 'normalsReliability', n)]
-        R.check(len(rl) == 1 and rl[0][2] == ('.computeNormalReliability', 'this'), 'N2', inst + ':reliability', 'reliability is %s' % (rl,), 'computeNormalReliability()', loc, 'E-SIB')
+        R.form(len(rl) == 1 and rl[0][2] == ('.computeNormalReliability', 'this'), 'N2', inst + ':reliability', 'reliability is %s' % (rl,), 'computeNormalReliability()', loc, 'E-SIB')
 
 
 def _sizes(t):
@@ -219,7 +219,7 @@ def check_plane(fx, R, cq, cname, f):
     st = stmts_sx(f)
     k = 'this.numberOfNeighborPoints_'
     nn = ('expr', ('.findNearestNeighbors', 'pointsKdTree', ('[]', 'points', 'pointIndex'), k, 'this.neighborIndexes_', 'this.neighborSquareDistances_'))
-    R.check(nn in st, 'N3', inst + ':query', 'the neighbour query is not findNearestNeighbors(points[pointIndex], k, indexes, distances) with the member k and buffers: %s' % ([s for s in st if 'findNearest' in str(s)],),
+    R.form(nn in st, 'N3', inst + ':query', 'the neighbour query is not findNearestNeighbors(points[pointIndex], k, indexes, distances) with the member k and buffers: %s' % ([s for s in st if 'findNearest' in str(s)],),
             'k nearest neighbours of the point itself', loc, 'E-STATE')
     loops = [x for x in walk(f['body']) if x.get('k') == 'For']
     want_mean = ('+=', 'mean', ('[]', 'points', ('[]', 'this.neighborIndexes_', 'i')))
@@ -260,7 +260,7 @@ def check_plane(fx, R, cq, cname, f):
         inits = {i.get('field'): deep_unwrap(sx(i['e'])) for i in ctor[0]['inits'] if i.get('field')}
         okc = inits.get('numberOfNeighborPoints_') == 'numberOfNeighborPoints' and isinstance(inits.get('neighborIndexes_'), tuple) and k in inits['neighborIndexes_'] \
             and isinstance(inits.get('neighborSquareDistances_'), tuple) and k in inits['neighborSquareDistances_']
-        R.check(okc, 'N3', cname + ':buffers', 'index/distance buffers are not sized with the number of neighbours: %s' % ({n_: inits.get(n_) for n_ in ('neighborIndexes_', 'neighborSquareDistances_')},),
+        R.form(okc, 'N3', cname + ':buffers', 'index/distance buffers are not sized with the number of neighbours: %s' % ({n_: inits.get(n_) for n_ in ('neighborIndexes_', 'neighborSquareDistances_')},),
                 'buffers sized k', fx.rel(ctor[0]['loc']), 'E-STATE')
 
 
